@@ -90,6 +90,9 @@ def run(tier):
             C02.check_rk_step(C02.make_executor(src, reg), reg, src, n, d["methods"][n])
         C02.check_call_skeleton(C02.make_executor(src, reg), reg, src, True, False)
         C02.check_call_skeleton(C02.make_executor(src, reg), reg, src, True, True)
+        from . import intcall
+        for adaptive in (False, True):
+            intcall.check_rk_call_unbounded(reg, src, PID, True, adaptive)          # every retry budget: loop cut by an invariant
         for o in reg.obligations:
             if o.name.startswith("C02/"):
                 o.name = o.name.replace("C02/", PID + "/", 1)
